@@ -388,6 +388,30 @@ impl ObjState for [Link] {
         early_err!(errors, "Links");
 
         for (idx, link) in self.iter().enumerate().skip(1) {
+            // References outside the network are reported, not followed
+            let mut refs_in_range = true;
+            for (var, name) in [
+                (link.idx_flip, "flip"),
+                (link.idx_next, "next"),
+                (link.idx_next_alt, "next alt"),
+                (link.idx_prev, "prev"),
+                (link.idx_prev_alt, "prev alt"),
+            ] {
+                if var.idx() >= self.len() {
+                    errors.push(anyhow!(
+                        "Link {} index {} = {} is outside the network ({} links)!",
+                        link.idx_curr,
+                        name,
+                        var,
+                        self.len()
+                    ));
+                    refs_in_range = false;
+                }
+            }
+            if !refs_in_range {
+                continue;
+            }
+
             // Validate flip and curr
             if link.idx_curr.idx() != idx {
                 errors.push(anyhow!(
